@@ -268,6 +268,8 @@ class SymInt:
     def _divlike(self, o, swap, f):
         ot = iterm(o)
         if ot is None:
+            if isinstance(o, (float, SymFloat)):
+                raise Unsupported("float // or % with a symbolic int")
             return NotImplemented
         a, b = (ot, self.t) if swap else (self.t, ot)
         if E().decide(z3.simplify(b == 0)):
